@@ -22,4 +22,4 @@ run_one() {
   git -C /repo worktree remove --force $wt >/dev/null 2>&1; rm -rf $wt $vr
 }
 export -f run_one; export TIER
-printf "%s\n" $PAIRS | xargs -P 3 -I{} bash -c 'run_one {}'
+printf "%s\n" $PAIRS | xargs -P ${MATRIX_P:-3} -I{} bash -c 'run_one {}'
